@@ -192,6 +192,22 @@ Theorem C09_inv2_set_done : forall s i pc', inv1 s -> inv2' s -> wl s = WTr -> t
 Proof. exact step_reltr. Qed.
 Print Assumptions C09_inv2_set_done.
 
+(*    What "the owner's obligation" means, on a concrete schedule (also reproduced on the implementation, see
+      findings/C09_close_waits_for_late_transaction.json): OpenTransaction (client 0) passes the closed test and
+      takes the write lock, Close (client 1) sets closed, closes closeC and reads db.tr == nil, OpenTransaction
+      sets db.tr and returns.  Close now waits for the write lock, which belongs to the transaction: its only
+      way on is the owner's Discard (Commit fails with ErrClosed at its closed test). *)
+Definition c09_late_tr : list action :=
+  [ACli 0 4 0; ACli 0 1 0; ACli 0 0 0; ACli 1 7 0; ACli 1 0 0; ACli 1 0 0; ACli 1 0 0; ACli 1 1 0;
+   ACli 0 2 0; ACli 0 1 0; ACli 0 0 0; ACli 0 0 0; AM 0; AM 0; AT 0; AT 0; AT 1; ACE 1].
+Example C09_close_waits_for_late_transaction :
+  match run fixed init c09_late_tr with
+  | Some s => Some (cli s 0, cli s 1, wl s, trown s, mc s, tc s, ce s,
+                    match step fixed s (ACli 1 0 0) with Some _ => true | None => false end)
+  | None => None
+  end = Some (IdleTr, CL4, WTr, Some 0, MDone, TDone, E_done, false).
+Proof. vm_compute. reflexivity. Qed.
+
 (* 4. The code before the repairs leaks: concrete schedules of the unfixed variants end in a state where a lock
       is held by nobody who will release it (and the repaired code, on the same schedule, does not). *)
 Example C09_commit_leaks_refuted :
